@@ -118,6 +118,26 @@ Theorem C18_list_exact_refuted :
 Proof. exact list_exact_refuted. Qed.
 Print Assumptions C18_list_exact_refuted.
 
+(* writers as handles (NewWriter / Write ... / Close, Close again): every
+   history of plain operations and of writers - any number open at the same
+   time, closed once, twice, written to after Close - gives exactly the
+   answers of the association list in which an open writer APPENDS to its
+   object, and the files of the tree are that list.  (Discipline assumed of
+   the history: nothing else stores to an object while a writer is open on
+   it.)  In particular what was written through one writer never shows up in
+   another object. *)
+Theorem C18_writers_refinement : forall ops,
+  fst (run_w (fs_init, []) ops) = fst (run_w_spec false ([], []) ops) /\
+  files (fst (snd (run_w (fs_init, []) ops))) = fst (snd (run_w_spec false ([], []) ops)).
+Proof. exact writers_refinement. Qed.
+Print Assumptions C18_writers_refinement.
+Theorem C18_stream_appends_to_its_object_only : forall s p c data,
+  sget p s = Some c -> collides p s = false ->
+  spec_append s p data = (true, sput p (c ++ data) s) /\
+  forall q, q <> p -> sget q (sput p (c ++ data) s) = sget q s.
+Proof. exact spec_append_laws. Qed.
+Print Assumptions C18_stream_appends_to_its_object_only.
+
 (* a listing is complete or it fails - whatever the state of the caller's
    context: FSBucket.Objects never consults it, no error is surfaced and the
    names are exactly the stored names with the prefix (ctx_done = the context
@@ -203,6 +223,13 @@ Proof. exact chart_name_good. Qed.
 Print Assumptions C18_service_names_inside_chart.
 
 (* Non-vacuity *)
+(* a writer closed twice, then two writers open at once on "a" and "b": each object holds its own bytes *)
+Example C18_example_two_writers :
+  fst (run_w (fs_init, []) ops_two_writers) =
+  [WOk true; WOk true; WOk true; WOk false;
+   WOk true; WOk true; WOk true; WOk true; WOk true; WOk true; WOk true; WOk false;
+   WR (RR (ROk [1; 2; 4])); WR (RR (ROk [3])); WOk false].
+Proof. exact two_writers_example. Qed.
 Example C18_example_copy_self :
   forallb op_ok ops_copy_self = true /\
   fst (run_fs fs_init ops_copy_self) = [RW true; RC true; RR (ROk [1; 2; 3]); RC false].
